@@ -559,6 +559,16 @@ def main():
                     open(os.path.join(bind, f'x{kx}.rs'), 'w').write(src)
                     lines.append(f'neg x{kx} {pr}')
                     kx += 1
+        # the same for the portable builders (no `compact` there)
+        for kind in ('n', 'x'):
+            for ln in (1, 2, 3):
+                for seq in itertools.product(['name', 'ty', 'tn'], repeat=ln):
+                    fp = [kind, [list(seq)]]
+                    steps = [['path'], ['comp', fp]] if kx % 2 == 0 else [['path'], ['var', [[['idx'], ['fs', fp]]]]]
+                    src, pr = rust_bld(steps, True), 'bld ' + proto_bld(steps, True)
+                    open(os.path.join(bind, f'x{kx}.rs'), 'w').write(src)
+                    lines.append(f'neg x{kx} {pr}')
+                    kx += 1
     for k in range(a.n):
         cls = classes[k % len(classes)]
         if cls == 'bld':
